@@ -6,7 +6,7 @@ SPEC = {
         "AM.Mt.fallback_spec", "AM.Mt.fallback_spec_list",
         "AM.Mt.fallback_prefers_classic", "AM.Mt.fallback_prefers_classic_list",
         "AM.Mt.classic_only_still_accepted", "AM.Mt.classic_only_still_accepted_list",
-        "AM.Mt.brace_guard_rejects_classic_input",
+        "AM.Mt.brace_guard_rejects_classic_input", "AM.Mt.parsers_total",
         "AM.Mt.matchesValue_spec", "AM.Mt.get_missing", "AM.Mt.matches_spec", "AM.Mt.matcherset_spec",
         "AM.Mt.unesc_omEscape", "AM.Mt.unquote_quote", "AM.Mt.unquote_omEscape",
     ],
